@@ -9,6 +9,8 @@ use nostr::base64::Engine;
 use nostr::base64::engine::general_purpose::STANDARD as B64;
 use nostr::{Event, EventBuilder, EventId, Keys, Kind, Tag, TagKind, UnsignedEvent};
 use openmls::prelude::*;
+// explicit import: both preludes export a `GroupId` (glob ambiguity is an error on nightly)
+use mdk_storage_traits::GroupId;
 use openmls_basic_credential::SignatureKeyPair;
 use serde_json::json;
 use tls_codec::Serialize as _;
